@@ -90,8 +90,10 @@ func (e *Engine) verifyFunc(fn *ssa.Function, fs *FuncSpec) (c *vctx) {
 	if exitReach.S == "true" {
 		sm.Formula = tTrue
 	}
-	log.addOblig(sm)
-	c.obligations = append(c.obligations, sm)
+	if !fs.Cheap { // package-sweep functions have no preconditions that could be contradictory
+		log.addOblig(sm)
+		c.obligations = append(c.obligations, sm)
+	}
 
 	env2 := a.entryEnv(exitSt)
 	env2.old = a.entry
